@@ -658,6 +658,10 @@ func genFuzz(rng *h.Rng, emit func(string), thorough bool) {
 			}
 		}
 	}
+	// the real pdkg.Loop kept running past its once-a-minute expiry sweep (63 s: thorough tier only)
+	if thorough {
+		emit("fzloop")
+	}
 	// oversized documents
 	emit("fzfetch 1")
 	emit("fzfetch 48")
